@@ -383,6 +383,16 @@ def in_lower_alphabet(t):
 
 # ====================================================================== streams
 
+def corr(ctx, stream, fn, ty, cases):
+    """ctx.corr, except that a Coq side that no longer builds (changed table, broken model) must not stop the
+    implementation-side oracle: it is recorded as a broken obligation and the streams go on"""
+    try:
+        return ctx.corr(stream, HEADER, fn, ty, cases)
+    except InfraError as e:
+        ctx.proof_broken('correspondence evaluator failed for stream %s (%s)' % (stream, fn), str(e)[-1500:])
+        return []
+
+
 def lint_batch(avh, root, files):
     """files: list of (name, bytes).  Writes them under <root>/.claude/commands and lints.  -> {name: [issue]}"""
     d = os.path.join(root, '.claude', 'commands')
@@ -462,13 +472,13 @@ def run_cmdfiles(ctx, avh, cat, n, ncoq, corpus=None):
                     coq_ref.append((cq.cpair(cq.cstr(t), cq.clist([cinv(a, cat.ref_id(a)) for a in rinv])),
                                     {'stream': stream, 'line': t, 'oracle_invocations': rinv, 'oracle_ids': [cat.ref_id(a) for a in rinv]}))
     T = 'str * list (N * list str) * list str'
-    for c in ctx.corr(stream + '_file', HEADER, 'check_file', T, coq_file):
+    for c in corr(ctx, stream + '_file', 'check_file', T, coq_file):
         ctx.violation('model and implementation disagree on the dangerous_defaults issues of a command file (or Coq and Python reference on its shell lines)', c, no_input=True)
-    for c in ctx.corr(stream + '_bash', HEADER, 'check_bash', 'str * list (N * str)', coq_bash):
+    for c in corr(ctx, stream + '_bash', 'check_bash', 'str * list (N * str)', coq_bash):
         ctx.violation('model and implementation disagree on extract_bash_commands', c, no_input=True)
-    for c in ctx.corr(stream + '_line', HEADER, 'check_line', 'str * list (list str * option str)', coq_line):
+    for c in corr(ctx, stream + '_line', 'check_line', 'str * list (list str * option str)', coq_line):
         ctx.violation('model and implementation disagree on extract_agentpack_invocations / agentpack_command_id', c, no_input=True)
-    for c in ctx.corr(stream + '_ref', HEADER, 'check_ref_line', 'str * list (list str * option str)', coq_ref):
+    for c in corr(ctx, stream + '_ref', 'check_ref_line', 'str * list (list str * option str)', coq_ref):
         ctx.violation('Coq reference reading and the harness oracle disagree on a shell line (machinery defect)', c, no_input=True)
 
 def run_argv(ctx, avh, cat, n, nclap):
@@ -492,9 +502,9 @@ def run_argv(ctx, avh, cat, n, nclap):
         cases.append((cinv(a, cid), case))
         rcases.append((cinv(a, rid), dict(case, what='reference id: Coq vs oracle')))
     ctx.sample({'stream': 'argv', 'argv': argvs[0], 'impl_id': cases[0][1]['impl_id'], 'ref_id': cases[0][1]['ref_id']})
-    for c in ctx.corr('argv', HEADER, 'check_cmdid', 'list str * option str', cases):
+    for c in corr(ctx, 'argv', 'check_cmdid', 'list str * option str', cases):
         ctx.violation('model and implementation disagree on agentpack_command_id', c, no_input=True)
-    for c in ctx.corr('argv_ref', HEADER, 'check_ref_id', 'list str * option str', rcases):
+    for c in corr(ctx, 'argv_ref', 'check_ref_id', 'list str * option str', rcases):
         ctx.violation('Coq reference id and the harness oracle disagree (machinery defect)', c, no_input=True)
     # the reference id against the real parser: the envelope's command_id (run without --yes: nothing is applied)
     sb = Sandbox('c20clap')
@@ -548,9 +558,9 @@ def run_urls(ctx, avh, n, ncoq, pairs=None):
             if in_lower_alphabet(u) and in_lower_alphabet(a):
                 cases.append((cq.cpair(cq.cstr(u), cq.cstr(a), cq.cstr(nu), cq.cstr(na), cq.cbool(m)), case))
                 rcases.append((cq.cpair(cq.cstr(u), cq.cstr(a), c_refobs(du), cq.cbool(da is not None), cq.copt(under, cq.cbool)), case))
-    for c in ctx.corr(stream, HEADER, 'check_url', 'str * str * str * str * bool', cases):
+    for c in corr(ctx, stream, 'check_url', 'str * str * str * str * bool', cases):
         ctx.violation('model and implementation disagree on normalize_git_remote_for_policy / remote_matches_allowlist', c, no_input=True)
-    for c in ctx.corr(stream + '_ref', HEADER, 'check_ref_url', 'str * str * option ref_obs * bool * option bool', rcases):
+    for c in corr(ctx, stream + '_ref', 'check_ref_url', 'str * str * option ref_obs * bool * option bool', rcases):
         ctx.violation('Coq reference decomposition and the harness oracle disagree (machinery defect)', c, no_input=True)
 
 # ---------------------------------------------------------------------- whole configurations
@@ -596,8 +606,19 @@ def gen_config(rng, cat):
     if rng.random() < 0.25:
         pack = pick(rng, ['https://%s/%s/pack.git' % (h, o), 'https://evil.com/%s/pack' % o, 'ssh://evil.com/x@%s/%s/pack' % (h, o)])
     dist = rng.random() < 0.6
+    if clean:       # remove most reasons for an issue (each with high probability, so near-clean worlds also occur)
+        keep = lambda: rng.random() < 0.9
+        if keep(): allow = [a for a in allow if ws_strip(a)]
+        if keep(): req_t = [t for t in req_t if ws_strip(t) in targets]
+        if keep(): req_m = [r for r in req_m if any(m['id'] == ws_strip(r) and m['enabled'] for m in mods)]
+        if keep(): lock = [{'id': m['id'], 'git': (m['git'], GOOD_SHA) if m['git'] else None} for m in mods]
+        if keep(): pack = None
+        seen = set(); mods2 = []
+        for m in mods:
+            if m['id'] not in seen: seen.add(m['id']); mods2.append(m)
+        mods = mods2
     return {'allow': allow, 'require_lock': require_lock, 'mods': mods, 'targets': targets, 'req_t': req_t if dist else None, 'req_m': req_m if dist else None,
-            'lock': lock, 'pack': pack, 'supply': bool(allow) or require_lock or rng.random() < 0.3}
+            'lock': lock, 'pack': pack, 'supply': bool(allow) or require_lock or rng.random() < 0.3, 'clean': clean}
 
 SKILL_FMS = [({'name': 'a', 'description': 'b'}, 0), ({'name': 'a'}, 1), ({'description': 'b'}, 1), ({}, 2), ({'name': ' ', 'description': 'b'}, 1),
              ({'name': 3, 'description': 'b'}, 1), ({'name': 'a', 'description': ['x']}, 1), (None, 1), ('unterminated', 1), ([1, 2], 1),
@@ -715,8 +736,17 @@ def run_configs(ctx, cat, n):
     try:
         for i in range(n):
             cfg = gen_config(rng, cat)
-            skills = [pick(rng, SKILL_FMS) for _ in range(rng.choice([0, 1, 2]))]
-            cmds = [gen_cmdfile(rng, cat) for _ in range(rng.choice([0, 1, 2]))]
+            skills = [(SKILL_FMS[0] if cfg['clean'] and rng.random() < 0.9 else pick(rng, SKILL_FMS)) for _ in range(rng.choice([0, 1, 2]))]
+            cmds = []
+            for _ in range(rng.choice([0, 1, 2])):
+                md, fm = gen_cmdfile(rng, cat)
+                for _ in range(12):
+                    if not (cfg['clean'] and rng.random() < 0.9): break
+                    tools = fm.get('allowed-tools') if isinstance(fm, dict) else None
+                    good = (isinstance(tools, str) and 'Bash(' in tools) or (isinstance(tools, list) and any(isinstance(x, str) and 'Bash(' in x for x in tools))
+                    if good and not ref_violations_of_file(cat, md): break
+                    md, fm = gen_cmdfile(rng, cat)
+                cmds.append((md, fm))
             root = os.path.join(sb.root, 'w%d' % i)
             write_world(root, cfg, skills, [md for md, _ in cmds])
             rc, doc, out, err = sb.cli_json(['--repo', root, 'policy', 'lint'])
@@ -758,11 +788,11 @@ def run_configs(ctx, cat, n):
     finally:
         sb.close()
     T = '(list str * bool * option str * lock_state) * (list str * list str * list str) * list cfg_module * list (str * str)'
-    for c in ctx.corr('config', HEADER, 'check_cfg', T, ccases):
+    for c in corr(ctx, 'config', 'check_cfg', T, ccases):
         ctx.violation('model and implementation disagree on the org-policy issues (rule, module) of a repository', c, no_input=True)
-    for c in ctx.corr('config_skill', HEADER, 'check_skill', 'frontmatter * N', scases):
+    for c in corr(ctx, 'config_skill', 'check_skill', 'frontmatter * N', scases):
         ctx.violation('model and implementation disagree on the skill front-matter rule', c, no_input=True)
-    for c in ctx.corr('config_tools', HEADER, 'check_tools', 'str * frontmatter * bool', tcases):
+    for c in corr(ctx, 'config_tools', 'check_tools', 'str * frontmatter * bool', tcases):
         ctx.violation('model and implementation disagree on the allowed-tools rule', c, no_input=True)
 
 # ---------------------------------------------------------------------- tables / corpus / replay
@@ -799,7 +829,7 @@ def run_tables(ctx, avh, cat, helpdoc):
             ctx.violation("help --json marks '%s' mutating=%s but the mutating set says otherwise" % (c['id'], c['mutating']), case)
     term = cq.cpair(cstrs(cat.mutating), cstrs(hm), cstrs(cat.groups), cq.clist([cq.cpair(cq.cstr(w), cq.cstr(f)) for w, f in cat.variants]),
                     cstrs(cat.value_flags), cstrs(cat.bool_flags))
-    for c in ctx.corr('tables', HEADER, 'check_tables', 'list str * list str * list str * list (str * str) * list str * list str', [(term, case)]):
+    for c in corr(ctx, 'tables', 'check_tables', 'list str * list str * list str * list (str * str) * list str * list str', [(term, case)]):
         ctx.violation('the tables regenerated from the source (mutating ids, command groups/variants, global flags) differ from what the binary reports', c, no_input=True)
 
 def replay(ctx, avh, cat):
@@ -853,8 +883,18 @@ def run(ctx):
         run_tables(ctx, avh, cat, helpdoc)
         # corpus first: witnesses of fixed defects and edge cases
         corpus = [(FM_OK + body + '\n', None) for body, _ in CORPUS_FILES]
+        extra_urls = []
+        cdir = os.path.join(CORPUS, 'C20')
+        if os.path.isdir(cdir):                      # minimised past failures, replayed first on every run
+            for fn in sorted(os.listdir(cdir)):
+                try:
+                    obj = json.load(open(os.path.join(cdir, fn)))
+                except Exception:
+                    continue
+                if 'markdown' in obj: corpus.append((obj['markdown'], None))
+                elif 'url' in obj and 'allow' in obj: extra_urls.append((obj['url'], obj['allow']))
         run_cmdfiles(ctx, avh, cat, 0, 0, corpus=corpus)
-        run_urls(ctx, avh, 0, 0, pairs=CORPUS_URLS)
+        run_urls(ctx, avh, 0, 0, pairs=CORPUS_URLS + extra_urls)
         for (u, a), must in zip(CORPUS_URLS, [False] * 13 + [True] * 3):
             nu = avh.call({'op': 'url_norm', 'url': u})['out']; na = avh.call({'op': 'url_norm', 'url': a})['out']
             if avh.call({'op': 'url_match', 'remote': nu, 'allow': na})['out'] != must and must:
